@@ -166,7 +166,7 @@ def via_aggregator(pubs: list):
     (harness/agg_common.py): registration, `handle_UodInfoMsg` per message, then `lsp_analysis.fetch_uod_info` /
     `create_analysis_input` exactly as `lint` calls them.  Returns (definition, analysis input)."""
     global _AGG, _AGG_ENGINES, _REAL_FETCH
-    import openpectus.aggregator.deps as agg_deps
+    from harness import agg_install
     from harness.agg_common import AggHarness, run
     from openpectus.lsp import lsp_analysis
     from openpectus.protocol import serialization
@@ -176,8 +176,8 @@ def via_aggregator(pubs: list):
     _AGG_ENGINES += 1
     engine = _AGG_ENGINES
     eid = _AGG.eid(engine)
-    saved_server, saved_fetch = agg_deps._server, lsp_analysis.fetch_uod_info
-    agg_deps._server = _AGG.agg
+    saved_fetch = lsp_analysis.fetch_uod_info
+    installed = agg_install.install(_AGG.agg)
     lsp_analysis.fetch_uod_info = _REAL_FETCH
     try:
         reply = _AGG.register(engine)
@@ -203,7 +203,7 @@ def via_aggregator(pubs: list):
             _AGG.disconnect(engine)
         except Exception:  # noqa: BLE001
             pass
-        agg_deps._server = saved_server
+        agg_install.restore(installed)
         lsp_analysis.fetch_uod_info = saved_fetch
         lsp_analysis.create_analysis_input.cache_clear()
 
